@@ -347,3 +347,103 @@ Proof.
     apply canon_txt_quiet; [apply PR; exact Ik | apply WK].
 Qed.
 Print Assumptions locate_rendered.
+
+(* ------------------------------------------------------------------ the last text of the query *)
+Lemma edge_end_ok : forall fl T, edge_ok fl T = true -> end_ok T = true.
+Proof. intros fl T E. destruct (last_nonsp fl T E) as [d [R [RV N]]]. unfold end_ok. rewrite RV, N. reflexivity. Qed.
+
+Lemma wt_ok_app : forall A T, end_ok T = true -> wt_ok T = true -> wt_ok (A ++ T) = true.
+Proof.
+  intros A T E W. unfold wt_ok, end_ok in *. rewrite rev_app_distr. destruct (rev T) as [|c r1]; [discriminate E|].
+  cbn [app]. destruct (N.eqb c RPAR); [|reflexivity]. destruct (span_by is_lower r1) as [nm r2] eqn:S.
+  destruct r2 as [|d r2]; [discriminate W|]. rewrite (span_by_stop is_lower r1 nm d r2 _ S). exact W.
+Qed.
+
+Lemma word_last_letter : forall K w, case_rel K w -> letters K = true -> K <> [] ->
+  exists c x, rev w = c :: x /\ is_alpha c = true.
+Proof.
+  intros K w C L NE. pose proof (letters_rev w (case_rel_letters K w C L)) as LW. destruct (rev w) as [|c x] eqn:RW.
+  - exfalso. apply NE. destruct C as [|k c K' w' Hc Hr]; [reflexivity|]. cbn [rev] in RW. destruct (rev w'); discriminate RW.
+  - exists c, x. split; [reflexivity|]. unfold letters in LW. cbn [forallb] in LW. apply andb_true_iff in LW. exact (proj1 LW).
+Qed.
+
+Lemma ends_with_word : forall K w A, case_rel K w -> letters K = true -> K <> [] ->
+  end_ok (A ++ w) = true /\ wt_ok (A ++ w) = true.
+Proof.
+  intros K w A C L NE. destruct (word_last_letter K w C L NE) as [c [x [RW AL]]]. unfold end_ok, wt_ok.
+  rewrite rev_app_distr, RW. cbn [app]. rewrite (alpha_is_sp c AL). split; [reflexivity|].
+  destruct (N.eqb_spec c RPAR) as [->|]; [discriminate AL | reflexivity].
+Qed.
+
+Lemma final_txt_ok : forall fl wf s q k, present q k = true -> kind_ok fl wf q k = true -> case_rel (dir_word q) (s_dir_w s) ->
+  end_ok (txt_of s q k) = true /\ wt_ok (txt_of s q k) = true.
+Proof.
+  intros fl wf s q k P K CD.
+  assert (G : forall t, clause_ok fl wf t = true -> end_ok t = true /\ wt_ok t = true).
+  { intros t H. split; [apply (edge_end_ok fl), (clause_ok_edge fl wf); exact H | apply (clause_ok_wt fl wf); exact H]. }
+  destruct k; cbn [present kind_ok txt_of] in *.
+  - destruct (q_join q) as [[jk t]|]; [|discriminate P]. apply G. exact K.
+  - unfold order_txt. unfold dir_word in CD. destruct (q_order q) as [[t d]|]; [|discriminate P].
+    apply andb_true_iff in K. destruct K as [K _]. destruct (d || s_asc s); [|rewrite app_nil_r; apply G; exact K].
+    rewrite app_assoc. destruct d; [apply (ends_with_word K_DESC) | apply (ends_with_word K_ASC)]; try exact CD; try reflexivity; discriminate.
+  - destruct (q_where q); [|discriminate P]. apply G. exact K.
+  - destruct (q_group q); [|discriminate P]. apply G. exact K.
+  - destruct (q_limit q); [|discriminate P]. apply G. exact K.
+  - destruct (q_except q); [|discriminate P]. apply G. exact K.
+  - destruct (q_from q); [|discriminate P]. apply G. exact K.
+Qed.
+
+Lemma final_head_ok : forall fl wf s k, head_ok fl wf k = true ->
+  end_ok (head_text s k) = true /\ wt_ok (head_text s k) = true.
+Proof.
+  intros fl wf s k H.
+  assert (G : forall A t, clause_ok fl wf t = true -> end_ok (A ++ t) = true /\ wt_ok (A ++ t) = true).
+  { intros A t C. pose proof (edge_end_ok fl t (clause_ok_edge fl wf t C)) as E.
+    split; [apply end_ok_app; exact E | apply wt_ok_app; [exact E | apply (clause_ok_wt fl wf); exact C]]. }
+  destruct k as [top d c sel|asg]; cbn [head_ok head_text] in *.
+  - apply andb_true_iff in H. destruct H as [H _]. apply andb_true_iff in H. destruct H as [H _]. apply andb_true_iff in H.
+    destruct H as [H _]. rewrite app_assoc. apply G. exact H.
+  - apply andb_true_iff in H. destruct H as [H _]. apply G. exact H.
+Qed.
+
+(* ------------------------------------------------------------------ the main theorem *)
+Lemma word_first : forall K w, case_rel K w -> letters K = true -> K <> [] -> exists c t, w = c :: t /\ is_sp c = false.
+Proof.
+  intros K w C L NE. destruct C as [|k c K' w' Hc Hr]; [contradiction|]. exists c, w'. split; [reflexivity|].
+  unfold letters in L. cbn [forallb] in L. apply andb_true_iff in L. destruct L as [L _].
+  destruct Hc as [<-|[_ [Hc _]]]; apply alpha_is_sp; assumption.
+Qed.
+
+Lemma render_edges : forall fl wf s q, wf_aq fl wf q = true -> sigma_ok s q ->
+  strip_sp (render s q) = render s q /\ with_match fl (render s q) = None.
+Proof.
+  intros fl wf s q W SO. destruct (wf_parts fl wf q W) as [WH [WK WF]]. pose proof SO as [ND [PR [WS [CH [HW CD]]]]].
+  destruct (render_q_last (s_hw s) (s_hk s) (head_text s (q_kind q)) (map (rcl_of s q) (s_order s))) as [pre [T [E H]]].
+  assert (TK : end_ok T = true /\ wt_ok T = true).
+  { destruct H as [[-> _]|[c [I ->]]]; [apply (final_head_ok fl wf); exact WH|].
+    apply in_map_iff in I. destruct I as [k [<- Ik]]. cbn [rcl_of rc_txt].
+    apply (final_txt_ok fl wf); [apply PR; exact Ik | apply WK | exact CD]. }
+  destruct TK as [TE TW]. unfold render. rewrite E. split; [|apply with_match_none; assumption].
+  assert (HD : exists c t, pre ++ SP :: T = c :: t /\ is_sp c = false).
+  { rewrite <- E. unfold render_q.
+    destruct (word_first (head_word (q_kind q)) (s_hw s) CH) as [c [t [EW NS]]]; [destruct (q_kind q); reflexivity | destruct (q_kind q); discriminate|].
+    rewrite EW. exists c. eexists. split; [reflexivity | exact NS]. }
+  destruct HD as [c [t [E2 NS]]]. apply (strip_sp_id _ c t E2 NS).
+  change (pre ++ SP :: T) with (pre ++ [SP] ++ T). rewrite app_assoc. apply end_ok_app. exact TE.
+Qed.
+
+Theorem token_spelling : forall fl with_from s q, wf_aq fl with_from q = true -> sigma_ok s q ->
+  separate_actions fl with_from (render s q) = Ok (actions_of s q).
+Proof.
+  intros fl wf s q W SO. destruct (render_edges fl wf s q W SO) as [SS WM].
+  destruct (wf_parts fl wf q W) as [WH [WK WF]]. pose proof SO as [ND [PR [WS [CH [HW CD]]]]].
+  unfold separate_actions. rewrite SS, WM. rewrite (locate_rendered fl wf s q W SO).
+  unfold target_of, render. rewrite process_query. rewrite (apply_head fl wf s (q_kind q) _ _ WH HW).
+  rewrite (proc_cls_put fl wf s q CD).
+  2:{ intros k Ik. split; [apply PR; exact Ik | apply WK]. }
+  change (head_put (q_kind q) (mkActions None None None false false None None None None None None None None))
+    with (head_put (q_kind q) acc0).
+  rewrite (fold_put_all s q (s_order s) PR). unfold actions_of. cbn [a_select a_update].
+  destruct (q_kind q); reflexivity.
+Qed.
+Print Assumptions token_spelling.
